@@ -24,6 +24,11 @@ CLAIMED = {
   design_ref="DESIGN.md §3 C06",
   note="Match lists for the reference splice come from the code's own Run on the model content (C07/C13 checked separately); files.Writer writes are observed at open time; cross-file order of the returned list is not asserted.",
   technique="deterministic simulation: seeded op histories on a simulated-world disk vs in-memory FS reference model + syscall-trace write-set invariant"),
+ "C18": dict(
+  text="Seeded search over histories of invocations of the real (instrumented) vore binary as a child process inside a scratch world, drawn from the documented flag cross product plus the invalid combinations, against a CLI reference model: flag specification x in-process library result on the pre-state x C06's file-system delta model; judged on exit status, exactly-one-JSON-document on stdout and in the named files, the world snapshot, and the child's logged file-system calls. Exploration.",
+  design_ref="DESIGN.md §3 C18",
+  note="The expected document is encoding/json of the library's matches; the model under-constrains where the documentation is silent (-no-output, zero matches, order across files); glob subtleties are left to C20.",
+  technique="deterministic simulation of the process boundary: seeded invocation histories of the real binary on a simulated-world disk vs CLI reference model + syscall-trace write-set invariant"),
 }
 
 NA = {
